@@ -72,6 +72,10 @@ var zeroBindAddr = false
 // 255.255.255.255:60000) instead of an explicit broadcast address
 var zeroBroadcastAddr = false
 
+// debugClients: clients are built with debug = true (the library then traces every request and
+// reply; whatever bookkeeping that involves is shared by the calls of one client)
+var debugClients = false
+
 func mkClient(bind uint16, calls []call, which int) uhppote.IUHPPOTE {
 	return mkClientOn(bind, "0.0.0.0", calls, which)
 }
@@ -94,9 +98,9 @@ func mkClientOn(bind uint16, ip string, calls []call, which int) uhppote.IUHPPOT
 		b = types.BindAddrFrom(netip.Addr{}, bind) // "any address, this port" written with the zero netip.Addr
 	}
 	if zeroBroadcastAddr {
-		return uhppote.NewUHPPOTE(b, types.BroadcastAddr{}, types.ListenAddr{}, T, devices, false)
+		return uhppote.NewUHPPOTE(b, types.BroadcastAddr{}, types.ListenAddr{}, T, devices, debugClients)
 	}
-	return uhppote.NewUHPPOTE(b, types.BroadcastAddrFrom(netip.MustParseAddr("192.168.1.255"), 60000), types.ListenAddr{}, T, devices, false)
+	return uhppote.NewUHPPOTE(b, types.BroadcastAddrFrom(netip.MustParseAddr("192.168.1.255"), 60000), types.ListenAddr{}, T, devices, debugClients)
 }
 
 func argsFor(op string, k int) spec.Args {
@@ -154,6 +158,7 @@ func callScenario(name string, bind uint16, calls []call, bound int, discovery b
 func callScenarioX(name string, bind uint16, calls []call, bound int, discovery bool, splitBind bool) e1.Scenario {
 	zero := strings.HasSuffix(name, "/zero-bind-addr")
 	zeroBcast := strings.HasSuffix(name, "/default-broadcast-addr")
+	dbg := strings.HasSuffix(name, "/debug")
 	var res []*result
 	var devs []map[string]any
 	var devErr error
@@ -169,6 +174,7 @@ func callScenarioX(name string, bind uint16, calls []call, bound int, discovery 
 	body := func() {
 		zeroBindAddr = zero
 		zeroBroadcastAddr = zeroBcast
+		debugClients = dbg
 		res = make([]*result, len(calls))
 		devs, devErr = nil, nil
 		cur := res
@@ -797,6 +803,20 @@ func main() {
 		}
 		scenarios = append(scenarios, callScenario(fmt.Sprintf("2calls/bind=%d/broadcast/default-broadcast-addr", bind), bind, calls, bound, false))
 		scenarios = append(scenarios, callScenario(fmt.Sprintf("discovery+call/bind=%d/broadcast/default-broadcast-addr", bind), bind, calls[:1], bound, true))
+	}
+	// clients built with debug = true: two calls at once on every pair of paths, and discovery next to a call
+	for _, bind := range []uint16{0, 60001} {
+		for _, p0 := range paths {
+			for _, p1 := range paths {
+				calls := []call{
+					{op: "GetCardByID", args: argsFor("GetCardByID", 0), ctrl: 0, path: p0, delay: 4 * T / 10, client: 0},
+					{op: "GetEvent", args: argsFor("GetEvent", 1), ctrl: 1, path: p1, delay: 2 * T / 10, client: 0},
+				}
+				scenarios = append(scenarios, callScenario(fmt.Sprintf("2calls/bind=%d/%s+%s/debug", bind, p0, p1), bind, calls, 1, false))
+			}
+		}
+		calls := []call{{op: "GetCardByID", args: argsFor("GetCardByID", 0), ctrl: 0, path: "udp", delay: 4 * T / 10, client: 0}}
+		scenarios = append(scenarios, callScenario(fmt.Sprintf("discovery+call/bind=%d/udp/debug", bind), bind, calls, 1, true))
 	}
 	// the network-free entry points used by two / three goroutines at once (first use in the process)
 	scenarios = append([]e1.Scenario{pureScenario(2), pureScenario(3)}, scenarios...)
